@@ -1,5 +1,6 @@
 import JoblibProofs.Lemmas.HashStream
 import JoblibProofs.Lemmas.HashDecode
+import JoblibProofs.Lemmas.HashMemo
 /-!
 # C08 — joblib.hash is a deterministic, order-insensitive, type-discriminating digest
 
@@ -295,5 +296,54 @@ theorem pinned_ordereddict_fallback_counterexample (H : Bs → Bs) :
   rw [h0, h1]
 
 end OrderedDictIterator
+
+/-! ## Values with shared sub-objects: the memo numbering
+
+Aliased values are outside `PyVal` (the byte-stream model and `encode_injective_partial` speak of trees); for them the
+check is an oracle on the implementation (harness/props/c08.py, `aliased_family`).  What IS modelled is the one thing
+their discrimination rests on: the second occurrence of an object is written as `BINGET idx`, and `idx` comes from
+`Pickler.memoize` (`idx = len(self.memo)`), `JoblibModel.HashMemo`.
+
+FULL STATEMENT (not proved: it needs a `ref k` node in the value universe and the decoder's memo):
+`encode` is injective on values with shared references.  PROVED, the numbering half:
+the i-th `memoize` call of a dump gets index i (`memo_indices_are_positions`; the check compares exactly this with the
+real `Hasher.memo`), so no two live objects share an index and a `BINGET k` stands for at most one object
+(`binget_unambiguous_partial`); and the numbering rests on the memo never shrinking: as soon as a live entry owns the
+index `len(memo)`, the next `memoize` hands that index to a second object (`reissued_index_is_ambiguous`), which is what
+popping three entries behind a surviving one does (`pop_reissues_index_counterexample`). -/
+section SharedReferences
+
+/-- The memo of a dump that memoised `objs` (in this order) numbers them 0, 1, 2, … -/
+theorem memo_indices_are_positions (objs : List Nat) : JoblibModel.HashMemo.indices (JoblibModel.HashMemo.run objs) = List.range objs.length :=
+  JoblibModel.HashMemo.indices_run objs
+
+/-- No index is issued twice during a dump. -/
+theorem memo_indices_distinct (objs : List Nat) : (JoblibModel.HashMemo.indices (JoblibModel.HashMemo.run objs)).Nodup := by
+  rw [JoblibModel.HashMemo.indices_run]; exact List.nodup_range
+
+/-- A `BINGET k` stands for at most one object of the memo. -/
+theorem binget_unambiguous_partial (objs : List Nat) (k : Nat) : (JoblibModel.HashMemo.owners (JoblibModel.HashMemo.run objs) k).length ≤ 1 := by
+  have hn := memo_indices_distinct objs
+  have hc := JoblibModel.HashMemo.owners_length (JoblibModel.HashMemo.run objs) k
+  rw [hc]
+  exact List.nodup_iff_count.mp hn k
+
+/-- If a live entry owns the index `len(memo)` (possible only after entries were removed), the next `memoize` makes
+that index ambiguous: it then belongs to the old owner AND to the new object. -/
+theorem reissued_index_is_ambiguous (m : JoblibModel.HashMemo.Memo) (o b : Nat) (h : (o, m.length) ∈ m) :
+    o ∈ JoblibModel.HashMemo.owners (JoblibModel.HashMemo.memoize m b) m.length ∧ b ∈ JoblibModel.HashMemo.owners (JoblibModel.HashMemo.memoize m b) m.length := by
+  constructor
+  · simp only [JoblibModel.HashMemo.owners, JoblibModel.HashMemo.memoize, List.mem_map, List.mem_filter, List.mem_append]
+    exact ⟨(o, m.length), ⟨Or.inl h, by simp⟩, rfl⟩
+  · simp only [JoblibModel.HashMemo.owners, JoblibModel.HashMemo.memoize, List.mem_map, List.mem_filter, List.mem_append]
+    exact ⟨(b, m.length), ⟨Or.inr (by simp), by simp⟩, rfl⟩
+
+/-- Six objects memoised (0 … 5), the entries of 2, 3 and 4 popped (the proxy of a set, its `__dict__`, its sorted
+list; 5 = an element of the set), three more objects memoised: the third one (8) is given index 5, which object 5
+still owns — `BINGET 5` is ambiguous. -/
+theorem pop_reissues_index_counterexample :
+    JoblibModel.HashMemo.owners ([6, 7, 8].foldl JoblibModel.HashMemo.memoize ([2, 3, 4].foldl JoblibModel.HashMemo.pop (JoblibModel.HashMemo.run [0, 1, 2, 3, 4, 5]))) 5 = [5, 8] := by decide
+
+end SharedReferences
 
 end C08
